@@ -4182,3 +4182,49 @@ func c18R9(c *Ctx, r *Report) {
 		"the payload at offset 4 of the slot is used in place as `"+bad+"`: `let f: f128 = 1.5; io::Println(f);` dies with SIGSEGV (an aligned 16-byte load from an address that is 4 mod 16)")
 	r.Floor(rule, n, 8, "casts of the payload pointer in print_union")
 }
+
+// ---- C18.R10: a phi of a value that lives in memory is a phi of addresses ---------------------------------------
+
+func init() {
+	lateInits = append(lateInits, func() {
+		props["C18"].Quick = append(props["C18"].Quick, c18R10)
+		props["C01"].Quick = append(props["C01"].Quick, c18R10)
+		props["C18"].Explanation += " (R10) the QBE emitPhi tests needsByRefType on the phi's type before it asks for the QBE type: a merge of struct, fixed-array or interface values merges their addresses, like every other instruction result of such a type."
+	})
+}
+
+func c18R10(c *Ctx, r *Report) {
+	const rule = "C18.R10"
+	r.Describe(rule, "qbe emitPhi: the call of qbeType is preceded by an if on needsByRefType(<phi type>) whose body re-types the phi as a reference")
+	fn := c.LookupFn(pkgQBE, "(*Generator).emitPhi")
+	nb := c.LookupFn(pkgQBE, "(*Generator).needsByRefType")
+	qt := c.LookupFn(pkgQBE, "(*Generator).qbeType")
+	if !r.Anchor(rule, fn != nil && nb != nil && qt != nil, "qbe emitPhi / needsByRefType / qbeType") {
+		return
+	}
+	info := fn.Info()
+	var qtPos token.Pos
+	for _, cl := range callsIn(fn.Decl.Body, false) {
+		if isCallTo(info, cl, qt.Obj) && (qtPos == token.NoPos || cl.Pos() < qtPos) {
+			qtPos = cl.Pos()
+		}
+	}
+	ok := false
+	ast.Inspect(fn.Decl.Body, func(x ast.Node) bool {
+		ifs, isIf := x.(*ast.IfStmt)
+		if !isIf || ifs.Pos() > qtPos || nodeCalls(info, ifs.Cond, nb.Obj) == nil {
+			return true
+		}
+		ast.Inspect(ifs.Body, func(y ast.Node) bool {
+			if cl, isCall := y.(*ast.CallExpr); isCall {
+				if f := callee(info, cl); f != nil && f.Name() == "NewReference" {
+					ok = true
+				}
+			}
+			return true
+		})
+		return true
+	})
+	r.Check(ok && qtPos != token.NoPos, rule, fn.Name(), "a phi of a by-reference type merges addresses", c.pos(fn.Decl.Pos()),
+		"the phi asks for the QBE type of a struct: `let v := div(1) catch d;` with a struct Ok payload is refused by the native back end (\"qbe: unsupported type struct { … }\") although the same shape with `?? d` on an optional compiles")
+}
